@@ -17,10 +17,15 @@ import (
 	"sync"
 	"time"
 
+	"github.com/ipfs/go-cid"
 	ipldprime "github.com/ipld/go-ipld-prime"
+	"github.com/ipld/go-ipld-prime/codec/dagcbor"
 	"github.com/ipld/go-ipld-prime/datamodel"
+	"github.com/ipld/go-ipld-prime/fluent/qp"
+	cidlink "github.com/ipld/go-ipld-prime/linking/cid"
 	"github.com/ipld/go-ipld-prime/node/basicnode"
 	ipldschema "github.com/ipld/go-ipld-prime/schema"
+	mh "github.com/multiformats/go-multihash"
 	"github.com/multiformats/go-varint"
 	"github.com/storacha/go-ucanto/core/dag/blockstore"
 	"github.com/storacha/go-ucanto/core/delegation"
@@ -433,17 +438,19 @@ type ProofRef struct {
 }
 
 type TokSpec struct {
-	Name     string
-	Issuer   *Prin
-	SignedBy *Prin // nil: Issuer
-	Audience *Prin
-	Caps     []CapSpec
-	Proofs   []ProofRef
-	Exp      *int // nil: no expiration
-	Nbf      int
-	Nonce    string
-	Tamper   string // "" or one of the field alterations of tamper()
-	TamperTo *Prin
+	Name      string
+	Issuer    *Prin
+	SignedBy  *Prin // nil: Issuer
+	Audience  *Prin
+	Caps      []CapSpec
+	Proofs    []ProofRef
+	Exp       *int // nil: no expiration
+	Nbf       int
+	Nonce     string
+	Tamper    string // "" or one of the field alterations of tamper()
+	TamperTo  *Prin
+	NotUCAN   bool   // not a token at all: a DAG-CBOR block of another shape, listed as an invocation
+	TamperStr string // for Tamper "withstr": the resource written into every capability after signing
 	// extra dangling proof links (no block anywhere)
 	Dangling int
 }
@@ -466,6 +473,7 @@ type CtxSpec struct {
 }
 
 type World struct {
+	DIDWith      bool // the capability's resource is read with schema.DIDString() (as real services do) instead of withReader
 	StructReader bool // caveats are read with core/schema.Struct (renamed fields) instead of the hand-written reader
 	ID           int
 	Kind         string // generator label (for statistics)
@@ -508,6 +516,28 @@ func (w *World) Build() error {
 	w.built = map[string]*Built{}
 	w.linkID = map[string]int{}
 	for _, sp := range w.Specs {
+		if sp.NotUCAN {
+			// a block that is well-formed DAG-CBOR but not a UCAN, presented as an invocation
+			nd, _ := qp.BuildMap(basicnode.Prototype.Any, 2, func(ma datamodel.MapAssembler) {
+				qp.MapEntry(ma, "hello", qp.String("world"))
+				qp.MapEntry(ma, "n", qp.String(sp.Name))
+			})
+			raw, err := ipldprime.Encode(nd, dagcbor.Encode)
+			if err != nil {
+				return err
+			}
+			sum := sha256.Sum256(raw)
+			d0, _ := mh.Encode(sum[:], mh.SHA2_256)
+			blk := block.NewBlock(cidlink.Link{Cid: cid.NewCidV1(0x71, d0)}, raw)
+			br, _ := blockstore.NewBlockReader(blockstore.WithBlocks([]ipld.Block{blk}))
+			d, err := delegation.NewDelegation(blk, br)
+			if err != nil {
+				return err
+			}
+			w.built[sp.Name] = &Built{Spec: sp, Dlg: d, Signer: 0}
+			w.order = append(w.order, sp.Name)
+			continue
+		}
 		var prfs []delegation.Proof
 		for _, pr := range sp.Proofs {
 			pb := w.built[pr.Tok]
@@ -582,6 +612,12 @@ func tamper(d delegation.Delegation, sp *TokSpec) (delegation.Delegation, error)
 		if m.Att[0].With == att[0].With {
 			// the capability already names that resource (e.g. combined with "foreign-resource"): the change must be a change
 			att[0].With += "#tampered"
+		}
+		m.Att = att
+	case "withstr":
+		att := append([]udm.CapabilityModel{}, m.Att...)
+		for i := range att {
+			att[i].With = sp.TamperStr
 		}
 		m.Att = att
 	case "nbf0":
@@ -845,7 +881,11 @@ func (w *World) descriptor(obs *Obs) validator.CapabilityParser[Cav] {
 	if w.StructReader {
 		nbReader = structCavReader{}
 	}
-	return validator.NewCapability[Cav](w.Can, withReader{}, nbReader,
+	var wr schema.Reader[string, string] = withReader{}
+	if w.DIDWith {
+		wr = schema.DIDString()
+	}
+	return validator.NewCapability[Cav](w.Can, wr, nbReader,
 		func(claimed, delegated ucan.Capability[Cav]) failure.Failure {
 			ok := stdDerives(claimed, delegated)
 			obs.mu.Lock()
